@@ -407,3 +407,89 @@ pub proof fn lemma_append_after_repair(bs: Seq<BatchW>, k: int, b: BatchW)
     lemma_take_journal(bs2, k, k);
     assert(journal_bytes(bs2, k) == journal_bytes(bs2.take(k), k));
 }
+
+// ---- L-COVER for the operations (C15): the checksum input determines the operations. The batch reader recomputes the
+// checksum over the re-encoded entries it has parsed (br_step: acc + enc_item / enc_clear) and emits only if it equals the
+// stored one; so, as far as xxh3 separates byte strings (ASSUMED: collision freedom is not a theorem about a 64-bit hash),
+// an emitted batch carries exactly the operations that were written -- altered keys or values are never emitted
+pub open spec fn is_op_entry(e: EntryV) -> bool { (e is Item || e is Clear) && entry_ok(e) }
+pub open spec fn concat_entries(es: Seq<EntryV>) -> Seq<u8> decreases es.len() {
+    if es.len() == 0 { Seq::empty() } else { enc_entryv(es[0]) + concat_entries(es.skip(1)) }
+}
+pub proof fn lemma_entry_nonempty(e: EntryV) ensures enc_entryv(e).len() >= 9 { broadcast use byte_lemmas::group_le_len; }
+/// a concatenation of encoded entries can be split in only one way (each entry announces its own length)
+pub proof fn lemma_concat_entries_injective(es1: Seq<EntryV>, es2: Seq<EntryV>)
+    requires forall|i: int| 0 <= i < es1.len() ==> is_op_entry(#[trigger] es1[i]), forall|i: int| 0 <= i < es2.len() ==> is_op_entry(#[trigger] es2[i]),
+        concat_entries(es1) == concat_entries(es2),
+    ensures es1 == es2, // [C15:L-COVER-the-checksum-input-determines-the-operations]
+    decreases es1.len(),
+{
+    if es1.len() == 0 {
+        if es2.len() > 0 { lemma_entry_nonempty(es2[0]); }
+        assert(es1 =~= es2);
+    } else if es2.len() == 0 {
+        lemma_entry_nonempty(es1[0]);
+    } else {
+        let a = concat_entries(es1);
+        let e1 = es1[0]; let e2 = es2[0];
+        let r1 = concat_entries(es1.skip(1)); let r2 = concat_entries(es2.skip(1));
+        assert(a =~= Seq::<u8>::empty() + enc_entryv(e1) + r1);
+        assert(a =~= Seq::<u8>::empty() + enc_entryv(e2) + r2);
+        lemma_parse_enc(e1, Seq::<u8>::empty(), r1);
+        lemma_parse_enc(e2, Seq::<u8>::empty(), r2);
+        assert(e1 == e2);
+        assert(r1 =~= a.subrange(enc_entryv(e1).len() as int, a.len() as int));
+        assert(r2 =~= a.subrange(enc_entryv(e2).len() as int, a.len() as int));
+        assert forall|i: int| 0 <= i < es1.skip(1).len() implies is_op_entry(#[trigger] es1.skip(1)[i]) by { assert(es1.skip(1)[i] == es1[i + 1]); }
+        assert forall|i: int| 0 <= i < es2.skip(1).len() implies is_op_entry(#[trigger] es2.skip(1)[i]) by { assert(es2.skip(1)[i] == es2[i + 1]); }
+        lemma_concat_entries_injective(es1.skip(1), es2.skip(1));
+        assert(es1 =~= seq![e1] + es1.skip(1));
+        assert(es2 =~= seq![e2] + es2.skip(1));
+    }
+}
+/// the writer's payload is such a concatenation (of the entries of its operations, in order)
+pub open spec fn op_entries(ops: Seq<OpV>, n: int, comp: CompressionType, thr: usize) -> Seq<EntryV> { Seq::new(n as nat, |i: int| op_entry(ops[i], comp, thr)) }
+pub proof fn lemma_concat_push(es: Seq<EntryV>, e: EntryV)
+    ensures concat_entries(es.push(e)) == concat_entries(es) + enc_entryv(e),
+    decreases es.len(),
+{
+    if es.len() == 0 {
+        assert(es.push(e).skip(1) =~= Seq::<EntryV>::empty());
+        assert(concat_entries(es.push(e)) =~= enc_entryv(e) + concat_entries(Seq::<EntryV>::empty()));
+    } else {
+        assert(es.push(e).skip(1) =~= es.skip(1).push(e));
+        lemma_concat_push(es.skip(1), e);
+        assert(concat_entries(es.push(e)) =~= concat_entries(es) + enc_entryv(e));
+    }
+}
+pub proof fn lemma_payload_is_concat(ops: Seq<OpV>, n: int, comp: CompressionType, thr: usize)
+    requires 0 <= n <= ops.len(),
+    ensures payload(ops, n, comp, thr) == concat_entries(op_entries(ops, n, comp, thr)),
+    decreases n,
+{
+    if n > 0 {
+        lemma_payload_is_concat(ops, n - 1, comp, thr);
+        assert(op_entries(ops, n, comp, thr) =~= op_entries(ops, n - 1, comp, thr).push(op_entry(ops[n - 1], comp, thr)));
+        lemma_concat_push(op_entries(ops, n - 1, comp, thr), op_entry(ops[n - 1], comp, thr));
+        assert(enc_entryv(op_entry(ops[n - 1], comp, thr)) == enc_op(ops[n - 1], comp, thr));
+    } else {
+        assert(op_entries(ops, 0, comp, thr) =~= Seq::<EntryV>::empty());
+    }
+}
+/// L-COVER(ops): two written batches with the same checksum input carry the same operations
+pub proof fn lemma_cover_ops(ops1: Seq<OpV>, ops2: Seq<OpV>, c1: CompressionType, t1: usize, c2: CompressionType, t2: usize)
+    requires ops_ok(ops1, c1, t1), ops_ok(ops2, c2, t2),
+        payload(ops1, ops1.len() as int, c1, t1) == payload(ops2, ops2.len() as int, c2, t2),
+    ensures ops1 == ops2, // [C15:L-COVER-the-checksum-input-determines-the-operations]
+{
+    lemma_payload_is_concat(ops1, ops1.len() as int, c1, t1);
+    lemma_payload_is_concat(ops2, ops2.len() as int, c2, t2);
+    let es1 = op_entries(ops1, ops1.len() as int, c1, t1); let es2 = op_entries(ops2, ops2.len() as int, c2, t2);
+    lemma_concat_entries_injective(es1, es2);
+    assert(ops1.len() == ops2.len());
+    assert forall|i: int| 0 <= i < ops1.len() implies ops1[i] == ops2[i] by {
+        assert(es1[i] == es2[i]);
+        assert(op_entry(ops1[i], c1, t1) == op_entry(ops2[i], c2, t2));
+    }
+    assert(ops1 =~= ops2);
+}
